@@ -1,0 +1,10 @@
+//go:build verif
+// +build verif
+
+package utility
+
+// Verification hook (C13): package consensus/ticker calls GetTime from a package-level
+// initialiser, i.e. before any harness main can call VerifDisableNTP; without network the
+// NTP lookup never returns. Under the verif tag the NTP offset is marked initialised at
+// package init of utility (which precedes the init of every importer).
+func init() { VerifDisableNTP() }
